@@ -517,7 +517,56 @@ func runC02(r *Run) {
 			}
 		})
 		gt.Instance("Message.Get", true, nil)
-		if gc == nil || !valueIsLoadOfField(gc.Call.Args[0], attrsF) || gc.Call.Args[1] != ssa.Value(getM.Params[1]) {
+		if gc == nil {
+			// no delegation: Message.Get must be a first-match search of its own over the message's list
+			var over ssa.Value
+			eachInstr(getM, func(b *ssa.BasicBlock, i int, in ssa.Instruction) {
+				if ia, ok := in.(*ssa.IndexAddr); ok && valueIsLoadOfField(canonCell(ia.X), attrsF) {
+					over = ia.X
+				}
+			})
+			var ml *matchLoop
+			why := "Message.Get neither delegates to Attributes.Get nor searches the message's own attribute list"
+			if over != nil {
+				ml, why = findTypeMatchLoop(getM, over, getM.Params[1], "Type")
+			}
+			if ml == nil {
+				gt.Violation(getM, getM.Pos(), "delegation", why)
+			} else {
+				if in := earlyExit(ml); in != nil {
+					gt.Violation(getM, instrPos(in), "early not-found", "the search gives up before the end of the list")
+				}
+				idx := errorResultIndex(getM)
+				for _, ret := range returnsOf(getM) {
+					c := &PathCtx{K: newKeyer(), assign: map[string]bool{}, phiSel: map[*ssa.Phi]ssa.Value{}, P: p}
+					ns := c.NilState(ret.Results[idx])
+					inMatch := blockDominates(ml.eqEdge(), ret.Block()) && len(ml.eqEdge().Preds) == 1
+					if (inMatch && ns != +1) || (!inMatch && ns != -1) {
+						gt.Violation(getM, instrPos(ret), "error mapping", "Message.Get must return nil iff the attribute was found")
+					}
+					if inMatch {
+						okVal := false
+						if ld, ok := deref(ret.Results[0]).(*ssa.UnOp); ok && ld.Op == token.MUL {
+							sameElem := func(v ssa.Value) bool {
+								if v == ssa.Value(ml.Elem) {
+									return true
+								}
+								ia, ok := v.(*ssa.IndexAddr)
+								return ok && canonCell(ia.X) == canonCell(ml.Elem.X) && ia.Index == ml.Elem.Index
+							}
+							if fa, ok := ld.X.(*ssa.FieldAddr); ok && sameElem(fa.X) {
+								if fv := fieldOfAddr(fa); fv != nil && fv.Name() == "Value" {
+									okVal = true
+								}
+							}
+						}
+						if !okVal {
+							gt.Violation(getM, instrPos(ret), "returned value", "Message.Get does not return the value of the matching attribute")
+						}
+					}
+				}
+			}
+		} else if !valueIsLoadOfField(gc.Call.Args[0], attrsF) || gc.Call.Args[1] != ssa.Value(getM.Params[1]) {
 			gt.Violation(getM, getM.Pos(), "delegation", "Message.Get does not look the requested type up in the message's own attribute list")
 		} else {
 			idx := errorResultIndex(getM)
